@@ -54,7 +54,7 @@ def main(tier: str, seed: int, opts) -> int:
     ev = Evidence(PROP, tier, seed)
     rep = Reporter(PROP)
     hashseeds = HASHSEEDS[: cfg["hashseeds"]]
-    pool_files = ampworld.make_pool(run_seed(seed, PROP, tier, 0, "pool"), cfg["files"], {"max_top": 2, "max_alt": 2, "with_cartesian": True, "collisions": True})
+    pool_files = ampworld.make_pool(run_seed(seed, PROP, tier, 0, "pool"), cfg["files"], {"max_top": 2, "max_alt": 2, "with_cartesian": True, "collisions": True, "with_unconvertible": True})
     if tier == "thorough":
         with open(ampworld.SHIPPED_MODEL, encoding="utf-8") as f:
             pool_files.append({"name": "DtoKpipipi_v2.txt", "text": f.read(), "tags": ["shipped_model"], "resonances": ["x"] * 30})
